@@ -87,7 +87,7 @@ def thermal_compiled_case(cooling):
     for yv, T in zip(yvals, (8.0e3, 2.5e4, 1.2e4)):
         yv[slot["TGAS"]] = T
     base = {"nH": 1e4, "Tgas": 50.0, "zeta": 1.3e-17, "Av": 1.0, "omega": 0.5}
-    plist = [dict(base, mu=-1.0, gamma=-1.0), dict(base, mu=1.3, gamma=1.6), dict(base, mu=-1.0, gamma=5.0 / 3.0)]
+    plist = [dict(base, mu=-1.0, gamma=-1.0), dict(base, mu=1.3, gamma=1.6), dict(base, mu=1.3, gamma=-1.0)]  # the last one: mu given, gamma left to the library
     res = OR.build_and_run(files, "dense", yvals, plist)
     if "error" in res:
         return 1, [(f"C01:thermal-compiled:{res['error']}", f"cooling {cooling}: {res['detail'][:300]}", case)]
